@@ -41,26 +41,27 @@ static const int NCELL = 2 * 9 * 8 * 2 * 2;
 
 static void sub_solve() {
     World &w = world(); mpi::communicator comm(w.comm);
-    long N = vf::opt_int("solves", vf::tier(48, 192)); long offset = (long)(w.size * 67 + vf::ctx().seed * 29);
+    const long sr = vf::opt_int("seed_ranks", w.size);      // development: replay the problem / cell sequence of another rank count on this one
+    long N = vf::opt_int("solves", vf::tier(48, 192)); long offset = (long)(sr * 67 + vf::ctx().seed * 29);
     for (long idx = 0; idx < N; ++idx) {
         if (!vf::selected("solve", idx)) continue;
-        uint64_t cs = vf::case_seed("solve", idx * 16 + w.size); Rng r(cs); vfm::seed_delays(cs, w.rank);
+        uint64_t cs = vf::case_seed("solve", idx * 16 + sr); Rng r(cs); vfm::seed_delays(cs, w.rank);
         long cell = (offset + idx * 115) % NCELL;
         std::string co = COARS[cell % 2], rl = RELAX[(cell / 2) % 9], sv = SOLV[(cell / 18) % 8], ds = DIRECT[(cell / 144) % 2]; bool repart = (cell / 288) % 2;
         { std::string fr = vf::opt("force_relax"), fs = vf::opt("force_solver"); if (!fr.empty()) rl = fr; if (!fs.empty()) sv = fs; }      // targeted runs (development / replay of a cell family)
         Problem p = make_problem(r, 300, (int)vf::tier(900, 1500));
-        Part rp = vfm::random_part(p.A.n, w.size, r);
+        Rng rpart(cs ^ 0x5bd1e9955bd1e995ULL); Part rp = vfm::random_part(p.A.n, w.size, rpart);     // own stream: every other draw is independent of the rank count
         bool budget = r.coin(0.2), left = !budget && (sv == "bicgstab" || sv == "bicgstabl" || sv == "gmres" || sv == "lgmres") && r.coin(0.25), rebuildable = r.coin();
         size_t maxiter = budget ? (size_t)r.range(3, 9) : (sv == "richardson" ? 1000 : 300); double tol = 1e-8;
         ptree prm; prm.put("precond.coarsening.type", co); prm.put("precond.relax.type", rl); prm.put("precond.direct.type", ds); prm.put("precond.repart.type", "merge");
         unsigned coarse_enough = (unsigned)r.range(20, 120); prm.put("precond.coarse_enough", coarse_enough); prm.put("precond.allow_rebuild", rebuildable);
         if (repart) { prm.put("precond.repart.enable", true); prm.put("precond.repart.min_per_proc", r.range(30, 400)); prm.put("precond.repart.shrink_ratio", r.range(2, 4)); }
         if (r.coin(0.3)) { prm.put("precond.npre", r.range(1, 2)); prm.put("precond.npost", r.range(1, 2)); } if (r.coin(0.15)) prm.put("precond.ncycle", 2);
-        double over_interp = 1.5; if (co == "aggregation" && r.coin(0.3)) { over_interp = 1.0 + 0.25 * r.range(0, 4); prm.put("precond.coarsening.over_interp", over_interp); }
+        double over_interp = 1.5; if (co == "aggregation" && r.coin(0.3)) { over_interp = 1.0 + 0.25 * r.range(0, 2); prm.put("precond.coarsening.over_interp", over_interp); r.range(0, 1); }   // <= the default 1.5: a factor of 2 makes the coarse correction of a stationary iteration overshoot (1 - alpha = -1)
         bool est = co == "smoothed_aggregation" && r.coin(0.4); if (est) { prm.put("precond.coarsening.estimate_spectral_radius", true); prm.put("precond.coarsening.power_iters", r.coin() ? 0 : 5); }
         prm.put("solver.type", sv); prm.put("solver.maxiter", maxiter); prm.put("solver.tol", tol); if (left) prm.put("solver.pside", "left");
         std::string cellname = co + ":" + rl + ":" + sv; std::string tag = cellname + (w.size > 1 ? ":np>1" : ":np=1");
-        Case c("solve", idx, J().n("ranks", w.size).s("coarsening", co).s("relax", rl).s("solver", sv).s("direct", ds).bl("repart", repart).s("family", p.family).n("n", p.A.n).s("rows", vfm::part_str(rp)).bl("budget_limited", budget).bl("left", left).bl("x0_zero", p.x0_zero).bl("allow_rebuild", rebuildable).n("coarse_enough", coarse_enough));
+        Case c("solve", idx, J().n("ranks", w.size).s("coarsening", co).s("relax", rl).s("solver", sv).s("direct", ds).bl("repart", repart).s("family", p.family).n("n", p.A.n).s("rows", vfm::part_str(rp)).bl("budget_limited", budget).bl("left", left).bl("x0_zero", p.x0_zero).bl("allow_rebuild", rebuildable).n("coarse_enough", coarse_enough).n("over_interp", over_interp));
         Csr<double> S = vfm::slice_rows(p.A, rp[w.rank], rp[w.rank + 1]); size_t nloc = S.n;
         std::vector<double> f(p.f.begin() + rp[w.rank], p.f.begin() + rp[w.rank + 1]), x(p.x0.begin() + rp[w.rank], p.x0.begin() + rp[w.rank + 1]);
         SolveOut o; std::unique_ptr<Solver> slv; g_rec.lv.clear(); g_rec.on = true;
@@ -69,6 +70,13 @@ static void sub_solve() {
         bool same = check_rank_consistent(c, tag, o);
         int anythrew = o.threw, gt = 0; MPI_Allreduce(&anythrew, &gt, 1, MPI_INT, MPI_MAX, w.comm); if (gt) continue;
         std::vector<double> gx = allgather_vec(x.data(), rp);
+        // Richardson is a stationary iteration: it converges iff rho(I - B A) < 1, which the V-cycle does not guarantee even on one rank
+        // (witness: aggregation + damped_jacobi on a G2 geometric graph, n = 775, diverges bit-identically on 1..8 ranks).  Its convergence
+        // clause is therefore differential: the same configuration is run by rank 0 alone on MPI_COMM_SELF, and the distributed run must
+        // converge whenever that single-rank run does.
+        bool ref_converges = true; size_t ref_iters = 0;
+        if (sv == "richardson" && !budget && w.size > 1) { if (w.rank == 0) { try { mpi::communicator self(MPI_COMM_SELF); size_t nn = p.A.n; std::vector<double> xr = p.x0; Solver ref(self, std::tie(nn, p.A.ptr, p.A.col, p.A.val), prm); double rr; std::tie(ref_iters, rr) = ref(p.f, xr); ref_converges = std::isfinite(rr) && rr < tol; }
+                catch (const std::exception &) { ref_converges = false; } vf::obs_sum(ref_converges ? "richardson_reference_converges" : "richardson_reference_diverges"); } }
         // left preconditioning: the reported quantity is || P (f - A x) || / || f ||, P applied through the solver's own preconditioner
         double left_true = -1;
         if (left) { std::vector<double> rl_(nloc), z(nloc, 0.0); auto y = vf::spmv_ld(p.A, gx); for (size_t i = 0; i < nloc; ++i) rl_[i] = (double)((long double)p.f[rp[w.rank] + i] - y[rp[w.rank] + i]);
@@ -80,7 +88,8 @@ static void sub_solve() {
         if (w.rank) continue;
         //-------------------------------------------------------------- rank 0
         double kappa = kappa_spd(p.A);
-        TruthSpec ts; ts.solver = sv; ts.maxiter = maxiter; ts.tol = tol; ts.kappa = kappa; ts.left = left; ts.left_true = left_true; ts.must_converge = !budget;
+        TruthSpec ts; ts.solver = sv; ts.maxiter = maxiter; ts.tol = tol; ts.kappa = kappa; ts.left = left; ts.left_true = left_true; ts.must_converge = !budget && ref_converges;
+        if (sv == "richardson" && w.size == 1 && !budget) { ts.must_converge = false; vf::obs_sum((std::isfinite(o.res) && o.res < tol) ? "richardson_np1_converges" : "richardson_np1_diverges"); }
         if (same) check_truth(c, tag, p.A, p.f, gx, p.x0, o, ts);
         c.check(nlev >= 2, "harness:single-level:" + tag, "hierarchy has a single level; the case does not exercise the distributed setup", J().n("levels", nlev));
         // recorded hierarchy
